@@ -46,7 +46,9 @@ def attr_list(schema, inst, pi):
 
 WRONG = {   # attribute kind -> [(label, replacement value)] : literals of a kind the attribute can never take
     'INTEGER': [('string', ('str', 'x')), ('enum', ('enum', 'RED')), ('aggregate', ('agg', [('int', 1)])), ('real', ('real', 1.5, '1.5'))],
-    'REAL': [('string', ('str', 'x')), ('enum', ('enum', 'T')), ('binary', ('bin', '1F')), ('integer', ('int', 2))],
+    'REAL': [('string', ('str', 'x')), ('enum', ('enum', 'T')), ('binary', ('bin', '1F')), ('integer', ('int', 2)),
+             # digits and an exponent but no decimal point: neither a REAL nor an INTEGER token
+             ('exponent without decimal point', ('real', 25.0, '25E0')), ('exponent without decimal point, signed', ('real', -100000.0, '-1E+5'))],
     'NUMBER': [('string', ('str', 'x')), ('enum', ('enum', 'T'))],
     'STRING': [('integer', ('int', 5)), ('real', ('real', 1.5, '1.5')), ('enum', ('enum', 'RED')), ('reference', ('raw', '#REF'))],
     'BINARY': [('integer', ('int', 5)), ('string', ('str', 'x'))],
